@@ -311,7 +311,43 @@ def _desc_b(letter, alt, octave, iv, up):
 
 UNTRACE = [('kernpy.core.transposer', 'transpose')]
 
+# ------------------------------------------------------------------ C09.e histories that start OUTSIDE the domain
+# legal calls whose pitch or result lies outside the property's domain (three accidentals, extreme octaves, spellings that raise):
+# whatever they return or raise, they must not change the answer of a later in-domain transposition
+PRELUDES = (None, ('e###', 'A1', 'up'), ('FF---', 'm2', 'down'), ('c###', 'P5', 'up'), ('BB---', 'M3', 'down'), ('b###', 'P1', 'up'),
+            ('g##', 'AA4', 'up'), ('D--', 'dd5', 'down'), ('ccccccccc', 'M7', 'up'), ('CCCCCCCCC-', 'octave', 'down'))
+
+
+def ob_e(pre: int, letter: int, alt: int, iv: int, up: bool) -> bool:
+    npre = ctx.pick(6, len(PRELUDES))
+    assume(0 <= pre < npre and 0 <= letter < 7 and -2 <= alt <= 2 and 0 <= iv < NI)
+    if not ctx.thorough():
+        assume(up == (iv % 2 == 0))          # quick: one direction per interval, alternating
+    return _e_body(choose(pre, npre), choose(letter, 7), choose(alt + 2, 5) - 2, choose(iv, NI), bool(up))
+
+
+@native
+def _e_body(pre, letter, alt, iv, up):
+    if PRELUDES[pre] is not None:
+        sp, iname, direction = PRELUDES[pre]
+        try:
+            kp.transpose(sp, kp.IntervalsByName[iname], direction=direction)
+        except Exception:
+            pass
+        for nm in ('C+++', 'F---', 'E+++', 'B+++', 'C---', 'G---'):        # the pitch model itself asked about a name outside the table
+            try:
+                kp.AgnosticPitch(nm, 4).get_chroma()
+            except Exception:
+                pass
+    return _b_body(letter, alt, 4, iv, up)
+
+
 OBLIGATIONS = [
+    Ob(id='C09.e', fn=ob_e, title='histories that start outside the domain: a call with three accidentals / an extreme octave first, then the in-domain grid',
+       shard_of=lambda pre, letter, alt, iv, up: iv, shards={'quick': 16, 'thorough': 16}, budget_s={'quick': 170, 'thorough': 900}, native_body=True,
+       witnesses=[{'pre': 1, 'letter': 2, 'alt': 1, 'iv': 4, 'up': True}], min_confirmed=2000,
+       enumerated='first call (10, incl. none), letter, alteration, interval, direction (octave 4)',
+       bounds={'quick': '6 first calls x 7 x 5 x 40 intervals (one direction each, alternating) = 8 400 two-step histories', 'thorough': '10 x 7 x 5 x 40 x 2 = 28 000'}),
     Ob(id='C09.t', engine='E2', fn=fn_tables, run=run_tables, title='live table sanity (inverse tables, the 40 names, each value = chroma(target) - chroma(C4))',
        symbolic='-', bounds={'quick': 'whole tables', 'thorough': 'whole tables'}),
     Ob(id='C09.a', engine='E2', fn=fn_a, run=run_a, title='arithmetic core for every integer octave (AST -> z3)',
